@@ -240,7 +240,7 @@ CHECKS = {
     },
     "C03": {
         "level": "exploration",
-        "technique": "history generator over the API contract + fresh-object oracle, under a hostile allocator (LIFO address reuse, PROT_NONE freed blocks, poisoned/quarantined small objects) and under ASan",
+        "technique": "history generator over the API contract + fresh-object oracle, under a hostile allocator (LIFO address reuse, PROT_NONE freed blocks, poisoned/quarantined small objects), under ASan, and under valgrind memcheck (definedness of results)",
         "jobs": lambda tier: [
             {"variant": "opt", "sub": "c03", "shards": 16, "cases": T(tier, 4, 110), "args": {"ops": T(tier, 25, 60)}, "env": {"MALLOC_PERTURB_": "165"}, "timeout": T(tier, 1800, 10800)},
             {"variant": "opt", "sub": "c03", "shards": T(tier, 0, 2), "cases": 40, "args": {"ops": 60, "datasets": 1, "model_crosscheck": 0}, "timeout": 10800, "weight": 8},
@@ -248,13 +248,15 @@ CHECKS = {
             # program-level histories: long-lived VMs execute chains of generated programs, each step repeated on a VM created for it
             {"variant": "opt", "sub": "c03p", "shards": 16, "cases": T(tier, 30, 1500), "timeout": T(tier, 1800, 10800)},
             {"variant": "asan", "sub": "c03p", "shards": T(tier, 4, 8), "cases": T(tier, 12, 200), "timeout": T(tier, 1800, 10800)},
+            # definedness: the lifecycle of every light class under valgrind memcheck (uninitialised heap AND stack bytes reaching a result)
+            {"variant": "opt", "sub": "c03v", "shards": 2, "valgrind": True, "timeout": T(tier, 2400, 10800), "weight": 2},
         ],
         "rule": "a case is one API history over up to 3 caches, 4 VMs (any light class incl. SECURE/LARGE_PAGES; fast classes with 2 datasets in the thorough tier), 4 keys (one empty, two differing only beyond byte 60) and 6 inputs (lengths 0/1/76/200/64/129): every second history starts from one of eleven scenario templates "
                 "(release+realloc same key, re-key+re-bind, re-key there and back, two caches with equal key, batch/re-key/batch, version switches between all operations, destroy/create VM on another cache, redundant init, release+realloc other key, re-bind to another object then re-key that object to a key the VM was bound with before - in both orders) instantiated per light VM class, followed by weighted random enabled operations "
                 "(hash, batch of 1-6 with other objects operated on in between, set_cache same/other object x same/other key, init same/other key, alloc/release incl. release while a VM is still bound, create/destroy, setFlagV2/clearFlagV2, set_dataset); scratchpad and tempHash are poisoned between operations; "
                 "every digest is compared with the digest of a fresh cache + fresh VM; non-trivial = contains a re-bind followed by a hash; distinct by hash of the operation sequence. "
                 "Program level (c03p): one long-lived VM per class ({interpreter, JIT, JIT+SECURE} x {soft, hard AES} x {light, full memory over a fake dataset}) executes chains of 2-4 generated programs (directed rare encodings, one-type, maximal-length, random, mutated real, branch-dense) with version switches (setFlagV2 / clearFlagV2), scratchpad kinds, entry rounding modes and 1-64 iterations; "
-                "each step is repeated on a VM created for that step alone (allocator hands out garbage-filled memory): register file, scratchpad, exit rounding mode must be equal; non-trivial = the long-lived VM executed a different program immediately before",
+                "each step is repeated on a VM created for that step alone (allocator hands out garbage-filled memory): register file, scratchpad, exit rounding mode must be equal; non-trivial = the long-lived VM executed a different program immediately before. Definedness (c03v, under valgrind memcheck with the guard allocator off): two caches (JIT / default or LARGE_PAGES), dataset items by both initialisers for counts 1..13, every light class x soft / hard AES: single and batched hashes in both versions, re-key + re-bind, commitment; cache samples, items, digests and the register file are checked with VALGRIND_CHECK_MEM_IS_DEFINED, and every memcheck error with a repository or generated-code frame is a violation",
         "assumptions": ["fresh digests are computed per shard with newly allocated objects used for one (key, version) each; two entries are tied to the reference model, the rest by C01/C02", "contract: no hash on a VM whose cache was released or re-keyed without re-binding; batches are atomic per VM"],
         "level_text": "Digests returned inside thousands of contract-respecting histories are compared with fresh-object digests while the allocator maximises address reuse and makes any stale access fault (or trip ASan). Histories are finite and sampled: exploration.",
         "level_note": "Found and fixed: dangling cache pointer after release + re-allocation at the same address (known_findings.txt).",
